@@ -120,6 +120,8 @@ def main():
             "-use_value_profile=1", "-print_final_stats=0", "-verbosity=0", "-timeout=20", "-rss_limit_mb=3000", "-len_control=0"]
     if len(sys.argv) > 5 and os.path.getsize(sys.argv[5]) > 0:
         args.append("-dict=" + sys.argv[5])
+    if len(sys.argv) > 6:
+        args.append("-max_total_time=" + sys.argv[6])          # whichever of runs / time comes first
     import logging
     logging.disable(logging.CRITICAL)
     atheris.Setup(args, one)
